@@ -36,6 +36,7 @@ type blockInfo struct {
 	// scheduler, resume performs the operation
 	ready  func() bool
 	resume func()
+	yield  bool // a voluntary yield (rt.SchedPoint): switching away is not a preemption
 }
 
 type Timer struct {
@@ -75,6 +76,7 @@ func (r *Run) pickGoroutine() *Goroutine {
 			curRunnable = true
 		}
 	}
+	voluntary := r.cur != nil && r.cur.blocked != nil && r.cur.blocked.yield
 	switch {
 	case len(runnable) == 1 || !r.schedChoice:
 		// default policy: keep running the current goroutine, else lowest id
@@ -82,7 +84,7 @@ func (r *Run) pickGoroutine() *Goroutine {
 		if curRunnable {
 			pick = r.cur
 		}
-	case curRunnable && r.preempts >= r.maxPreempt:
+	case curRunnable && !voluntary && r.preempts >= r.maxPreempt:
 		// preemption bound reached: the running goroutine continues
 		pick = r.cur
 	default:
@@ -104,7 +106,7 @@ func (r *Run) pickGoroutine() *Goroutine {
 			return as
 		})
 		pick = cands[d]
-		if curRunnable && pick != r.cur {
+		if curRunnable && !voluntary && pick != r.cur {
 			r.preempts++
 		}
 		r.res.SchedChoices++
